@@ -91,6 +91,11 @@ func genC16(rng *rand.Rand, tier string) *sim.Plan {
 	}
 	churn := func(ph *sim.Phase, n int) {
 		for _, c := range []int{l.chA[n], l.chB[n]} {
+			if chance(rng, 0.15) {
+				// the whole session ends (clean session): its subscriptions go at once, while the other churn
+				// client of the node may be subscribing the same topics
+				ph.Ops = append(ph.Ops, sim.Op{K: "disconnect", C: c}, sim.Op{K: "connect", C: c, Node: n, Clean: true})
+			}
 			for i := 0; i < rng.IntN(4); i++ {
 				f := pick(rng, c16filters)
 				if chance(rng, 0.45) {
@@ -137,6 +142,10 @@ func genC16(rng *rand.Rand, tier string) *sim.Plan {
 					churn(&f, a)
 				}
 				p.Phases = append(p.Phases, f)
+				if r == rounds-1 && !both && chance(rng, 0.3) {
+					// the failure is never revoked: a must forget everything it knew about b
+					break
+				}
 				var j sim.Phase
 				j.Ops = append(j.Ops, sim.Op{K: "api_custom", C: nextAPI(), Custom: "fed_join", Target: fedNode(a) + ">" + fedNode(b)})
 				if both {
@@ -240,6 +249,14 @@ func oracleC16(p *sim.Plan, out *sim.Outcome) []sim.Violation {
 				if sa == nil || sb == nil {
 					continue
 				}
+				if dump.View[B+">"+A] == "failed" {
+					// B was told that A failed and nothing revoked it: B must hold no subscription of A
+					out.Probes["fed_failed_views_checked"]++
+					if got := sb.FedSubs[A]; len(got) > 0 {
+						vs = append(vs, viol("C16", "converge", "failed-node-remembered", "node %s was told that %s failed (and never that it joined again), yet it still routes for %s's subscriptions %v", B, A, A, got))
+					}
+					continue
+				}
 				if dump.View[A+">"+B] != "alive" || dump.View[B+">"+A] != "alive" {
 					continue
 				}
@@ -312,6 +329,9 @@ func oracleC16(p *sim.Plan, out *sim.Outcome) []sim.Violation {
 			sessionLasts := scen == "cuts" || scen == "calm" || pi.phase > dumpPhase
 			if scen == "kill" && pi.phase <= dumpPhase {
 				sessionLasts = false
+			}
+			if dump != nil && (dump.View[fedNode(pi.node)+">"+fedNode(sn)] != "alive" || dump.View[fedNode(sn)+">"+fedNode(pi.node)] != "alive") && pi.node != sn {
+				continue // one of the two nodes considers the other one gone: nothing is owed between them
 			}
 			if n == 0 && sessionLasts && dumpPhase >= 0 {
 				where := "while the peer session lasted (only stream cuts were injected)"
